@@ -12,9 +12,10 @@
 import Mathlib.Algebra.Order.Field.Basic
 import TjdModel.Agg.AsAggregator
 import TjdProps.C01
+import TjdProps.C02
 import TjdLemmas.E2ELemmas
 namespace Tjd.Props.C04b
-open Tjd Tjd.Autojac Tjd.Agg Tjd.Props.C01
+open Tjd Tjd.Autojac Tjd.Agg Tjd.Props.C01 Tjd.Props.C02
 
 variable {α : Type} [Field α] [LinearOrder α] [IsStrictOrderedRing α]
 
@@ -61,5 +62,43 @@ theorem backward_upgrad_wrong_pref_length (E : Engine α) (tensors inputs : List
     (backward E tensors inputs (upgradAgg sv normEps regEps u) chunk retain h).grads = h := by
   exact e2e_upgrad_wrong_length E tensors inputs sv normEps regEps u chunk retain h hv.wf hv.tensors_nodup
     hv.inputs_nodup hv.rows_pos hv.chunk_pos hv.outs_rg hv.ins_ok hne hu
+
+/-! ### the same for `mtl_backward`: the shared parameters receive a non-conflicting combination of the rows of the
+      feature-level Jacobian `mtlJac` (row `i` = gradient of `losses[i]` w.r.t. the shared parameters, back-propagated through
+      the features), while every task parameter receives its own-task gradients -/
+
+/-- UPGrad through `mtl_backward`, end to end -/
+theorem mtl_upgrad_nonconflict (E : Engine α) (ndim : Key → Nat) (losses features : List Key)
+    (tps : List (List Key)) (shared : List Key) (sv : Mat α → α) (normEps regEps : α) (u : Vec α)
+    (chunk : Option Int) (retain : Bool) (h : Grads α)
+    (hv : ValidMtl E ndim losses features tps shared chunk) (hs : shared ≠ [])
+    (hu : u.length = losses.length) (hre : 0 < regEps)
+    (hsv : normEps ≤ sv (mtlJac E losses features shared)) (hs0 : 0 < sv (mtlJac E losses features shared)) :
+    let o := mtlBackward E ndim losses features tps shared (upgradAgg sv normEps regEps u) chunk retain h
+    o.err = none ∧
+    ∃ v w : Vec α,
+      v = combine ((shared.map E.numel).sum) (mtlJac E losses features shared) w ∧
+      (∀ k, o.grads k = if k ∈ shared then accum (h k) (sliceOf E.numel shared k v)
+                        else taskAccum E (List.zip tps losses) k (h k)) ∧
+      NonConflictUpTo (mtlJac E losses features shared) v
+        (w.map fun wi => regEps * (sv (mtlJac E losses features shared) * sv (mtlJac E losses features shared)) * wi) := by
+  exact e2e_mtl_upgrad E ndim losses features tps shared sv normEps regEps u chunk retain h hv hs hu hre hsv hs0
+
+/-- DualProj through `mtl_backward`, end to end -/
+theorem mtl_dualproj_nonconflict (E : Engine α) (ndim : Key → Nat) (losses features : List Key)
+    (tps : List (List Key)) (shared : List Key) (sv : Mat α → α) (normEps regEps : α) (u : Vec α)
+    (chunk : Option Int) (retain : Bool) (h : Grads α)
+    (hv : ValidMtl E ndim losses features tps shared chunk) (hs : shared ≠ [])
+    (hu : u.length = losses.length) (hre : 0 < regEps)
+    (hsv : normEps ≤ sv (mtlJac E losses features shared)) (hs0 : 0 < sv (mtlJac E losses features shared)) :
+    let o := mtlBackward E ndim losses features tps shared (dualprojAgg sv normEps regEps u) chunk retain h
+    o.err = none ∧
+    ∃ v w : Vec α,
+      v = combine ((shared.map E.numel).sum) (mtlJac E losses features shared) w ∧
+      (∀ k, o.grads k = if k ∈ shared then accum (h k) (sliceOf E.numel shared k v)
+                        else taskAccum E (List.zip tps losses) k (h k)) ∧
+      NonConflictUpTo (mtlJac E losses features shared) v
+        (w.map fun wi => regEps * (sv (mtlJac E losses features shared) * sv (mtlJac E losses features shared)) * wi) := by
+  exact e2e_mtl_dualproj E ndim losses features tps shared sv normEps regEps u chunk retain h hv hs hu hre hsv hs0
 
 end Tjd.Props.C04b
